@@ -4,7 +4,7 @@ import pipeline as P
 from peg import dump_groups
 
 DEFAULT_OPT = dict(memo=False, debug=False, stats=True, maxexpr=0, allowinv=False, recover=True, fname="f",
-                   errblks=[], panicblk=0, entry="")
+                   errblks=[], panicblk=0, entry="", entryrule=1)
 
 
 def opt(**kw):
@@ -80,7 +80,9 @@ class Run:
         variants = []
         for pi, pk in enumerate(packs):
             for fi, fl in enumerate(flagsets):
-                extra = gen_flags_for(pk) if gen_flags_for else []
+                extra = list(gen_flags_for(pk)) if gen_flags_for else []
+                if "lr" in pk[0].tags and "-support-left-recursion" not in fl and "-support-left-recursion" not in extra:
+                    extra.append("-support-left-recursion")
                 variants.append(P.Variant(len(variants) + 1, "p%df%d" % (pi, fi), pk, list(fl) + list(extra)))
 
         def prep(v):
@@ -121,7 +123,7 @@ class Run:
         gp = os.path.join(P.workdir(), "groups.ndjson")
         dump_groups(groups, gp)
         tcase = dict(inputs=inputs, options=options, lower=lower or [[0, 0]], uclass=uclass or [[0]],
-                     cmp=dict(dict(store=True, errs=True, ctx=False), **(cmp or {})),
+                     cmp=dict(dict(store=True, errs=True, ctx=False, norm=False), **(cmp or {})),
                      kf=getattr(self, "kf", []) or ["-"], strict=sorted(wit) or [0])
         div, tot = P.validate_t1(gp, tcase, obs, shards=shards)
         # witnesses of known findings: a divergence with the finding's symptom re-confirms it
